@@ -63,6 +63,16 @@ theorem handles_exact [WOps α] (ops : List (Op α)) :
     rw [e] at this
     simp [this]
 
+/-- [AF] **size is the number of surviving elements**: after any operation sequence `size()` equals the number of live
+handles (handles created and not removed / cleared). -/
+theorem size_is_live_count [WOps α] (ops : List (Op α)) :
+    ((Pdf.empty : Pdf α).run ops).size =
+      ((List.range ((Pdf.empty : Pdf α).run ops).next).filter
+        (fun k => (((Pdf.empty : Pdf α).run ops).idx k).isSome)).length :=
+  size_counts_live _ (idx_sync_preserved ops)
+
+example : (@Pdf.run Int intScale.toWOps Pdf.empty [.add 1, .add 2, .add 3, .remove 1]).size = 2 := by decide
+
 /-- [AF] `sample` (with the F2 guard) never reads outside a tree row or outside `data_`: from the
 shape alone, for every weight type — in particular under floating-point rounding. -/
 theorem sample_inbounds_of_shape [WScale α] (s : Pdf α) (r : α) (hs : ShapeInv s) : s.sample r ≠ .oob := by
@@ -216,6 +226,16 @@ theorem zero_weight_never_drawn (ops : List (Op α)) (hok : ∀ op ∈ ops, OpOk
       linarith
     · have := hlt hp
       linarith
+
+/-- [EX] **the F2 guard changes nothing in exact arithmetic**: after any operation sequence with non-negative weights the
+descent before the fix and the guarded descent return the same result for every `r ∈ [0,1]` — the guard only matters once
+rounding has broken `SumInv` (so the fix cannot have changed the selection rule). -/
+theorem descents_agree_exact (ops : List (Op α)) (hok : ∀ op ∈ ops, OpOk op) (r : α) (h0 : 0 ≤ r) (h1 : r ≤ 1) :
+    ((Pdf.empty : Pdf α).run ops).sampleOld r = ((Pdf.empty : Pdf α).run ops).sample r := by
+  obtain ⟨hsh, hsum, hnn⟩ := reachable_inv ops (Pdf.empty : Pdf α) hok shapeInv_empty sumInv_empty leavesNonneg_empty
+  exact sampleOld_eq_sample _ r hsh hsum hnn h0 h1
+
+example := descents_agree_exact (α := ℚ) [.add 1, .add 0, .add 3, .remove 0] (by simp [OpOk]) (1 / 2) (by norm_num) (by norm_num)
 
 example := zero_weight_never_drawn (α := ℚ) [.add 1, .add 0, .add 3, .update 0 2, .remove 1] (by simp [OpOk]) (1 / 4)
   (by norm_num) (by norm_num)
